@@ -725,7 +725,7 @@ class PaneConverter(Converter[PaneBaseT]):
         for (i, f) in enumerate(self.fields):
             if not f.init:
                 continue
-            self.field_map[f.name] = i
+            # (f.in_names is the complete list of input names; it contains f.name unless the user configured otherwise)
             for alias in f.in_names:
                 self.field_map[alias] = i
 
